@@ -342,13 +342,24 @@ static struct sx_parse_result sx_parse_list(const char*, size_t, size_t);
 static struct sx_parse_result
 sx_parse_list(const char *s, const size_t n, const size_t i)
 {
-    if (i >= n) {
+    const size_t j = skip_ws(s, n, i);
+    if (j >= n) {
         struct sx_parse_result rv = SX_PARSE_RESULT_INIT;
         rv.status = SXS_UNEXPECTED_END;
+        rv.position = j;
         return rv;
     }
-    struct sx_parse_result carres = sx_parse_(s, n, i);
-    if (result_is_empty_listp(&carres) || result_is_error(&carres)) {
+    if (s[j] == ')') {
+        /* This closes the list at hand. Only here does a closing paren mean
+         * "end of list"; an empty list as an element is a value like any
+         * other and does not end the enclosing list. */
+        struct sx_parse_result rv = SX_PARSE_RESULT_INIT;
+        rv.node = sx_make_empty_list();
+        rv.position = j + 1u;
+        return rv;
+    }
+    struct sx_parse_result carres = sx_parse_(s, n, j);
+    if (result_is_error(&carres)) {
         return carres;
     }
 
@@ -369,8 +380,16 @@ sx_parse_(const char *s, const size_t n, const size_t i)
     if (rv.status == SXS_FOUND_LIST) {
         return sx_parse_list(s, n, rv.position);
     }
-    if (i >= n && rv.node == NULL) {
+    if (rv.status == SXS_SUCCESS && rv.node == NULL) {
+        /* Nothing but whitespace: There is no expression here. */
         rv.status = SXS_UNEXPECTED_END;
+        return rv;
+    }
+    if (rv.status == SXS_SUCCESS && rv.node->type == SXT_EMPTY_LIST) {
+        /* The tokeniser hands out an empty list for a closing paren. Lists
+         * consume theirs in sx_parse_list(), so this one has no partner. */
+        sx_destroy(&rv.node);
+        rv.status = SXS_UNKNOWN_INPUT;
         return rv;
     }
     return rv;
